@@ -1,5 +1,6 @@
 import Poulpy.Driver.Util
 import Poulpy.Model.Fft64
+import Poulpy.Model.Fft64Avx
 
 /-!
 Model driver for `fft64` — twin of `pvh fft64` (harness/src/cmd_fft64.rs).
@@ -15,13 +16,17 @@ The twiddle tables are request fields (`omg=`, `iomg=`: the `2m` patterns the ha
   mul a= b= | addmul r= a= b=  `reim_mul_ref` / `reim_addmul_ref`      → patterns
   pipe k= omg= iomg= a= b=   svp_prepare(a); svp_apply_dft(b); idft  → integers
   vmp k= omg= iomg= a=v;v;… b=v;v;…  rows of vmp_prepare / vmp_apply_dft, one column; idft → integers
+  ffma a= b= c=              `fl(a·b + c)` (one rounding)               → patterns
+  `be=avx` on from|to|fft|ifft|mul|addmul|pipe|vmp selects the model of FFT64Avx (`Model/Fft64Avx.lean`); `mul`/`addmul`
+  take `k=` there (reference fallback for `m % 4 ≠ 0`); `vmp2 [be=avx] k= … a= b= b2= [off=1]`: matrix with two output
+  limbs (2-column kernels) → `limb0|limb1`, or with `off=1` (`vmp_apply_dft_to_dft`, `limb_offset = 1`) the second only
   idx k= dir=f|i             for every block in network order `lvl:blk:ire:iim:imode:jnum:jlog` (what the
                              numerical twiddle check of the gate reads: positions from `fwdIdx`/`invIdx`,
                              intended angle `j = jnum / 2^jlog` from `jpar`)
 -/
 
 namespace Drv.Fft64
-open _root_.Fft64 _root_.F64
+open _root_.Fft64 _root_.F64 _root_.Fft64Avx
 
 def showOut : Outcome (List Nat) → String
   | .ok v => if v.all isFinite then showNats v else "err:nonfinite"
@@ -44,10 +49,62 @@ def idxDump (K : Nat) (inverse : Bool) : String :=
     s!"{lvl}:{blk}:{p.1}:{p.2.1}:{if p.2.2 then 1 else 0}:{j.1}:{j.2}"))
   if rows.isEmpty then "-" else ",".intercalate rows
 
+def showI : Outcome (List Int) → String
+  | .ok v => showInts v
+  | .err k => "err:" ++ k
+  | .panic c => "panic:" ++ c
+
+def handleAvx (op : String) (args : List String) : String :=
+  let K := kvNat args "k"
+  let a := kvNats args "a"
+  let b := kvNats args "b"
+  let x := kvNats args "x"
+  let omg := (kvNats args "omg").toArray
+  let iomg := (kvNats args "iomg").toArray
+  match op with
+  | "from" => match fromZnxAvx (kvInts args "x") with
+    | .ok v => showNats v
+    | .panic c => "panic:" ++ c
+    | .err e => "err:" ++ e
+  | "to" => showInts (toZnxAvx K x)
+  | "fft" => showOut (fftAvx K omg x)
+  | "ifft" => showOut (ifftAvx K omg x)
+  | "mul" =>
+    if a.length ≠ b.length ∨ a.length ≠ 2 * 2 ^ K then "panic:assert"
+    else finiteOr (flat (List.zipWith (cmulAvx K) (halves K a) (halves K b)))
+  | "addmul" =>
+    let r := kvNats args "r"
+    if a.length ≠ b.length ∨ a.length ≠ r.length ∨ a.length ≠ 2 * 2 ^ K then "panic:assert"
+    else finiteOr (flat (List.zipWith (fun s uv => caddmulAvx K s uv.1 uv.2) (halves K r) ((halves K a).zip (halves K b))))
+  | "pipe" =>
+    let p := kvInts args "a"
+    let v := kvInts args "b"
+    if omg.size ≠ tabAlloc K ∨ iomg.size ≠ tabAlloc K then "err:table"
+    else if p.length ≠ 2 * 2 ^ K ∨ v.length ≠ 2 * 2 ^ K then "err:shape"
+    else showI (svpPipelineAvx K omg iomg p v)
+  | "vmp" | "vmp2" =>
+    let as := vecs args "a"
+    let bs := vecs args "b"
+    let b2 := vecs args "b2"
+    if omg.size ≠ tabAlloc K ∨ iomg.size ≠ tabAlloc K then "err:table"
+    else if as.length ≠ bs.length ∨ (as ++ bs ++ b2).any (fun v => v.length ≠ 2 * 2 ^ K) then "err:shape"
+    else if op == "vmp" then showI (vmpPipelineAvx K omg iomg 1 (as.zip bs))
+    else if as.length ≠ b2.length then "err:shape"
+    else
+      let l1 := vmpPipelineAvx K omg iomg 2 (as.zip b2)
+      if kv args "off" == some "1" then showI l1
+      else match vmpPipelineAvx K omg iomg 2 (as.zip bs), l1 with
+        | .ok u, .ok v => showInts u ++ "|" ++ showInts v
+        | .panic c, _ => "panic:" ++ c
+        | _, .panic c => "panic:" ++ c
+        | _, _ => "err:internal"
+  | _ => "bad-op"
+
 def handle (ts : List String) : String :=
   match ts with
   | [] => "bad-op"
   | op :: args =>
+    if kv args "be" == some "avx" then handleAvx op args else
     let K := kvNat args "k"
     let a := kvNats args "a"
     let b := kvNats args "b"
@@ -57,6 +114,23 @@ def handle (ts : List String) : String :=
     | "fsub" => showNats (List.zipWith sub a b)
     | "fmul" => showNats (List.zipWith mul a b)
     | "fneg" => showNats (a.map neg)
+    | "ffma" => showNats ((List.zipWith (fun p c => F64.fma p.1 p.2 c) (a.zip b) (kvNats args "c")))
+    | "vmp2" =>
+      let omg := (kvNats args "omg").toArray
+      let iomg := (kvNats args "iomg").toArray
+      let as := vecs args "a"
+      let bs := vecs args "b"
+      let b2 := vecs args "b2"
+      if omg.size ≠ tabAlloc K ∨ iomg.size ≠ tabAlloc K then "err:table"
+      else if as.length ≠ bs.length ∨ as.length ≠ b2.length ∨ (as ++ bs ++ b2).any (fun v => v.length ≠ 2 * 2 ^ K) then "err:shape"
+      else
+        let l1 := vmpApply K omg iomg (as.zip b2)
+        if kv args "off" == some "1" then showI l1
+        else match vmpApply K omg iomg (as.zip bs), l1 with
+          | .ok u, .ok v => showInts u ++ "|" ++ showInts v
+          | .panic c, _ => "panic:" ++ c
+          | _, .panic c => "panic:" ++ c
+          | _, _ => "err:internal"
     | "from" => showNats (fromZnx (kvInts args "x"))
     | "to" => showInts (toZnx K x)
     | "fft" => showOut (fftRef K (kvNats args "omg").toArray x)
